@@ -119,4 +119,15 @@ PROPS = {
    'bounds': 'gon2deg: 6 windows (0, seconds carry, minute carry, 100 gon, negative, generic) x sign modes 0..3 x precision 1..2 (1..4 thorough); dms2rad/rad2dms: 5 windows, tolerance 1e-9 for the round trip; bearing_distance: all point pairs with coordinates in [-1e5,1e5] at least 0.1 m apart plus the 1e-6 cut; recognisers: all byte strings <= 6 (8) bytes',
    'outside': 'Ellipsoid::blh2xyz/xyz2blh round trip and its documented bound (Bowring formula with sin/cos/atan of non-special arguments: transcendental, L4), the ellipsoid table, deg2gon (parses with istringstream: text, L5), latlong string formatting',
    'assumptions': ['exact real arithmetic; printed field = value rounded to the stream precision (documented contract of fixed formatting)', 'libm contract for atan2/sin/cos/sqrt'] + E2_ASSUME},
+ 'C13': {'e1': [{'harness': 'net', 'entry_points': NET_ENTRY + ['LocalNetwork::export_xml', 'updated_xml_covmat', 'DisplayObservationVisitor', 'to_xmlstr', 'GKFparser on the exported text']}], 'must_reach': ['net-c13'],
+   'technique': 'symbolic execution of adjust -> export_xml -> real GKFparser -> adjust: symbolic numbers travel through the real writer and parser as reserved literals that read back as the same terms; values, status, results and the re-exported text compared by the solver / natively',
+   'bounds': NET_BOUNDS + '; 2 (quick) / 3 (thorough) export-adjust rounds; one algorithm per network (rotating)',
+   'outside': NET_OUT + '; attributes of nonlinear types (from_dh/to_dh/bs_dh/fs_dh, dist=), degree output, extern attributes; constants are compared as re-read (the writer\'s 17-digit precision is exercised natively); for points with observed coordinates the approximate values are compared from the second round on (the parser takes the observed ones, by design)',
+   'assumptions': NET_ASSUME + ['a symbolic number is printed as a reserved 19-digit literal, whatever the stream precision, and mapped back when atof/operator>> returns that exact double']},
+ 'C12': {'e1': [{'harness': 'net', 'entry_points': NET_ENTRY + ['LocalNetworkXML::write (all sections)', 'LocalNetworkAdjustmentResults::read_xml / Parser', 'str2xml on the description']}], 'must_reach': ['net-c12'],
+   'claim': 'Partial claim: the adjustment XML written by the real LocalNetworkXML for a symbolic adjustment is read back by the real LocalNetworkAdjustmentResults parser, and every numeric field (coordinates, observations, standard deviations, statistics, covariance band for cov-band -1,0,1,2,3) equals the adjustment / the exact oracle as a term (symbolic numbers) or to the printed precision (constants). HTML/text/Octave/SVG writers, identifier escaping and the consumer tools are outside.',
+   'technique': 'symbolic execution of adjust -> LocalNetworkXML::write -> LocalNetworkAdjustmentResults::read_xml with symbolic numbers carried through the real writer and reader as reserved literals; fields compared by the solver against the adjustment and the exact oracle',
+   'bounds': NET_BOUNDS + '; a priori reference deviation, observation errors within +-0.01 mm (so that the writer\'s outlier tests do not fork), cov-band in {-1,0,1,2,3} (2 per network quick, all thorough)',
+   'outside': NET_OUT + '; HTML, text, Octave, SVG and SQL writers and read_html; escaping of identifiers (ids are written raw); compare-xyz and gama-local-deformation; the a posteriori setting in the writer (each outlier comparison is a 15 s nonlinear query)',
+   'assumptions': NET_ASSUME + ['Normal((1-p)/2) uninterpreted but assumed within [1.9, 2.0] for p = 0.95', 'a symbolic number is printed as a reserved literal whatever the stream precision']},
 }
